@@ -1,10 +1,12 @@
 import EmmyVerif.Model.Climb
 import EmmyVerif.Model.NumLex
 import EmmyVerif.Model.NumLexString
+import EmmyVerif.Model.FeaturesKeywords
 import EmmyVerif.Drv.Util
 /-! Driver ops of the `climb` family (C03): `climb.parse <raw kinds, comma separated>` runs the expression
 model on the real lexer's token kinds with the regenerated table; `climb.numlex <4 feature bits> <hex text>`
-runs the `lex_number` model. -/
+runs the `lex_number` model; `climb.strlex <level index> <hex>` / `climb.strcheck <level index> <hex>` the string models with the
+hand-written per-level escape tables `Features.zskip` / `Features.escCfg`. -/
 namespace Drv.Climb
 open Gen.Climb (Tok)
 
@@ -40,12 +42,14 @@ def handle (op : String) (args : List String) : Option String :=
     pure (match NumLex.lexNumber cfg t with
       | some o => s!"ok {showKind o.kind} {o.len} {if o.err then 1 else 0}"
       | none => "err empty")
-  | "strlex", [h] => do
+  | "strlex", [l, h] => do
     let t ← Drv.unhex h
+    let lv ← (← l.toNat?) |> (Gen.Features.Level.all[·]?)
+    let zskip := Features.zskip lv
     let b := fun (x : Bool) => if x then 1 else 0
     pure (match t with
       | '"' :: _ | '\'' :: _ =>
-        (match StrLex.lexShort t with
+        (match StrLex.lexShort zskip t with
          | some (n, e) => s!"ok string {n} {b e}"
          | none => "err empty")
       | '[' :: _ =>
@@ -58,9 +62,10 @@ def handle (op : String) (args : List String) : Option String :=
         let (long, n, e) := StrLex.lexAfterDashes r
         s!"ok {if long then "longcomment" else "shortcomment"} {n + 2} {b e}"
       | _ => "err start")
-  | "strcheck", [h] => do
+  | "strcheck", [l, h] => do
     let t ← Drv.unhex h
-    pure (if StrLex.checkString t then "ok 1" else "ok 0")
+    let lv ← (← l.toNat?) |> (Gen.Features.Level.all[·]?)
+    pure (if StrLex.checkString (Features.escCfg lv) t then "ok 1" else "ok 0")
   | _, _ => none
 
 end Drv.Climb
